@@ -44,6 +44,8 @@ type Trace struct {
 	DataAddr uint64            `json:"data_addr"`
 	Data     string            `json:"data"`
 	Bss      int               `json:"bss"`
+	Gap2     int               `json:"gap2,omitempty"`  // hole between the data segment and a second one (0 = none)
+	Data2    string            `json:"data2,omitempty"` // bytes of the second data segment
 	Seed     uint64            `json:"seed"`
 	RegInit  map[string]uint64 `json:"reg_init,omitempty"` // "5" -> value
 	KnownReg []int             `json:"known_reg,omitempty"`
@@ -134,6 +136,12 @@ func (e *Engine) Generate(r *core.Rand, prop string, tier string) core.Trace {
 	dl := r.Range(1, 40)
 	t.Data = hex.EncodeToString(r.Bytes(dl))
 	t.Bss = r.Intn(3) * r.Intn(16)
+	if r.Chance(1, 3) {
+		// a second image block a few bytes behind the first: one access can
+		// start in one block, cross the hole and end in the other
+		t.Gap2 = r.Range(1, 7)
+		t.Data2 = hex.EncodeToString(r.Bytes(r.Range(1, 16)))
+	}
 	// pointer registers are steered into one of two small windows: the data
 	// segment of the image (accesses overlap earlier ones, straddle the end
 	// of the image) and a window of memory nobody has ever touched
@@ -142,7 +150,7 @@ func (e *Engine) Generate(r *core.Rand, prop string, tier string) core.Trace {
 		case 0:
 			return winB + uint64(r.Intn(24))
 		case 1:
-			return t.DataAddr + uint64(dl+t.Bss) - uint64(r.Intn(9)) // around the end of the image
+			return t.DataAddr + uint64(dl+t.Bss+r.Intn(t.Gap2+1)) - uint64(r.Intn(9)) // around the end of the image / the hole
 		case 2:
 			return t.Prog[len(t.Prog)-1].Addr + 4 - uint64(r.Intn(8)) // reads straddling the end of the code image
 		default:
@@ -296,6 +304,7 @@ func (r *run) Register(key expr.Key, w expr.Width) expr.Const {
 	if r.askedR[k] {
 		r.fail("C04", "provider-once", "provider/register-twice", "provider asked for register %s a second time", k)
 	}
+	adversarial := r.knownR[k] && r.ctx.Prop == "C03"
 	r.askedR[k], r.knownR[k] = true, true
 	if int(w) < 8 {
 		r.ctx.Probe("register_requested_narrow")
@@ -327,6 +336,10 @@ func (r *run) Register(key expr.Key, w expr.Width) expr.Const {
 		}
 	} else {
 		r.fail("C03", "provider", "provider/strange-register", "provider asked for a register that is no RISC-V state: %s", k)
+	}
+	if adversarial {
+		v = ^v // see Memory
+		r.ctx.Probe("wrong_answer_for_known_register")
 	}
 	r.suppliedR[k] = supplied{v: maskW(v, int(w)), w: int(w)}
 	return constLE(v, int(w))
@@ -365,8 +378,15 @@ func (r *run) Memory(key expr.Key, addr model.Addr, w expr.Width) expr.Const {
 		if r.askedM[a] {
 			r.fail("C04", "provider-once", "provider/byte-twice", "provider asked for byte %#x a second time", a)
 		}
+		adversarial := r.knownM[a] && r.ctx.Prop == "C03"
 		r.askedM[a], r.knownM[a] = true, true
 		bs[i] = r.mem.Read(a)
+		if adversarial {
+			// a question that must never be asked gets a wrong answer: if the
+			// emulator lets it shadow what it knew, C03 sees the divergence
+			bs[i] = ^bs[i]
+			r.ctx.Probe("wrong_answer_for_known_byte")
+		}
 		r.suppliedM[a] = bs[i]
 	}
 	if r.knownM[uint64(addr)-1] || r.knownM[uint64(addr)+uint64(w)] {
@@ -386,7 +406,15 @@ func (e *Engine) Execute(tr core.Trace, ctx *core.Ctx) {
 		return
 	}
 	data, _ := hex.DecodeString(t.Data)
-	desc := imggen.Exec(t.Prog, t.Entry, t.DataAddr, data, t.Bss)
+	segs := []imggen.DataSeg{{Addr: t.DataAddr, Data: data, Bss: t.Bss}}
+	data2, _ := hex.DecodeString(t.Data2)
+	data2Addr := t.DataAddr + uint64(len(data)+t.Bss+t.Gap2)
+	if t.Gap2 >= 1 && t.Gap2 <= 64 && len(data2) > 0 && t.Bss >= 0 {
+		segs = append(segs, imggen.DataSeg{Addr: data2Addr, Data: data2})
+	} else {
+		data2 = nil
+	}
+	desc := imggen.ExecSegs(t.Prog, t.Entry, segs)
 	var ld *imggen.Loaded
 	var err error
 	fn, msg, panicked := core.Guard(func() { ld, err = imggen.Load(desc) })
@@ -417,6 +445,12 @@ func (e *Engine) Execute(tr core.Trace, ctx *core.Ctx) {
 			b = data[i]
 		}
 		r.mem.image[t.DataAddr+uint64(i)] = b
+	}
+	for i, b := range data2 {
+		r.mem.image[data2Addr+uint64(i)] = b
+	}
+	if len(data2) > 0 {
+		ctx.Probe("image_with_a_small_hole")
 	}
 	for a := range r.mem.image {
 		r.knownM[a] = true
@@ -620,6 +654,19 @@ func (r *run) step(em *emulator.Emulator, codeBytes map[uint64]bool) {
 		sig := "step/failed-at-instruction/" + name
 		if wraps {
 			sig = "step-fails/access-reaches-end-of-address-space"
+			if !r.ctx.Fail("C03", "fails-iff-not-at-instruction", sig, r.ev, "pc %#x is the start of %s but Step failed: %v", pc, name, err) {
+				// known finding (or not this check's property): the operator
+				// steps over the instruction on both machines and the run goes
+				// on - what the provider supplied during the refused step
+				// stays supplied
+				next := pc + 4
+				r.st.Regs.Store(expr.IPKey, constLE(next, 8), 8)
+				r.m.PC = next
+				ctx.Probe("stepped_over_unsupported_access")
+				return
+			}
+			r.stop = true
+			return
 		}
 		r.fail("C03", "fails-iff-not-at-instruction", sig, "pc %#x is the start of %s but Step failed: %v", pc, name, err)
 		r.stop = true
